@@ -10,61 +10,73 @@ namespace Eru.Props.C17
 open Eru.Txn
 
 /-- the follow-up step runs iff the condition step succeeded (and a follow-up was given) -/
-theorem then_iff_cond_ok : ∀ cond thn rb c,
-    countStep .thn (txn cond thn rb c).calls = (if cond = .ok ∧ thn ≠ .absent then 1 else 0) := by decide
+theorem then_iff_cond_ok : ∀ cond thn rb c sl,
+    countStep .thn (txn cond thn rb c sl).calls = (if cond = .ok ∧ thn ≠ .absent then 1 else 0) := by decide
 
 /-- the rollback runs exactly once iff some step failed (and a rollback was given), never otherwise -/
-theorem rollback_once_iff_failed : ∀ cond thn rb c,
-    countStep .rollback (txn cond thn rb c).calls = (if anyFailed cond thn = true ∧ rb ≠ .absent then 1 else 0) := by decide
+theorem rollback_once_iff_failed : ∀ cond thn rb c sl,
+    countStep .rollback (txn cond thn rb c sl).calls = (if anyFailed cond thn = true ∧ rb ≠ .absent then 1 else 0) := by decide
 
 /-- the rollback is told whether the condition step was the one that failed -/
-theorem rollback_told_cond : ∀ cond thn rb c, ∀ k ∈ (txn cond thn rb c).calls,
+theorem rollback_told_cond : ∀ cond thn rb c sl, ∀ k ∈ (txn cond thn rb c sl).calls,
     k.step = .rollback → k.byCond = some (decide (cond = .fail)) := by decide
 
 /-- `Txn` returns the first failure (the rollback's own error is never returned) -/
-theorem returns_first_failure : ∀ cond thn rb c,
-    (txn cond thn rb c).ret = (if cond = .fail then .condErr else if thenFailed cond thn then .thenErr else .nil) := by decide
+theorem returns_first_failure : ∀ cond thn rb c sl,
+    (txn cond thn rb c sl).ret = (if cond = .fail then .condErr else if thenFailed cond thn then .thenErr else .nil) := by decide
 
-/-- the rollback's context is live on entry and on exit whenever the caller cancels -/
-theorem rollback_ctx_live : ∀ cond thn rb c, ∀ k ∈ (txn cond thn rb c).calls,
-    k.step = .rollback → k.ctx = .inherit ∧ k.cancelledAtEntry = false ∧ k.cancelledAtExit = false := by decide
+/-- the rollback's context is live when the rollback starts — whenever the caller cancels AND however
+long the steps before it took (its `ttl` budget starts when the rollback starts, not at the top of
+`Txn`) — and it stays live unless the rollback itself runs longer than `ttl` -/
+theorem rollback_ctx_live : ∀ cond thn rb c sl, ∀ k ∈ (txn cond thn rb c sl).calls,
+    k.step = .rollback → k.ctx = .inherit ∧ k.cancelledAtEntry = false ∧
+      k.cancelledAtExit = decide (sl = .rollback) := by decide
+
+/-- the step context does expire: a follow-up step that runs on it after a slow condition step sees the
+deadline (so the harness distinguishes contexts with a fresh budget from the step context) -/
+theorem step_ctx_expires : ∀ thn, ((txn .ok (.present thn) (.present .ok) .never .cond).calls.any
+    fun k => k.step == .thn && k.cancelledAtEntry) = true := by decide
 
 /-- the steps that observe the caller's context do see its cancellation (the harness would notice a
 `Txn` that detaches everything) -/
 theorem cond_sees_cancellation : ∀ cond thn rb, ((txn cond thn rb .beforeCond).calls.any fun k => k.step == .cond && k.cancelledAtEntry) = true := by decide
 
 /-- PCR: the user's rollback runs exactly once iff prepare succeeded and commit failed -/
-theorem pcr_rollback_iff_commit_failed : ∀ prep commit rb c,
-    countStep .rollback (pcr prep commit rb c).calls = (if thenFailed prep commit = true ∧ rb ≠ .absent then 1 else 0) := by decide
+theorem pcr_rollback_iff_commit_failed : ∀ prep commit rb c sl,
+    countStep .rollback (pcr prep commit rb c sl).calls = (if thenFailed prep commit = true ∧ rb ≠ .absent then 1 else 0) := by decide
 
 /-- PCR with a non-nil rollback never panics; with a nil rollback it panics exactly when commit fails -/
-theorem pcr_panics_iff : ∀ prep commit rb c,
-    (pcr prep commit rb c).panicked = (thenFailed prep commit && rb == .absent) := by decide
+theorem pcr_panics_iff : ∀ prep commit rb c sl,
+    (pcr prep commit rb c sl).panicked = (thenFailed prep commit && rb == .absent) := by decide
 
 /-- the whole decidable specification (the predicate the oracle evaluates on /repo's output) holds of the model -/
-theorem txn_meets_spec : ∀ cond thn rb c, specTxn cond thn rb (txn cond thn rb c) = [] := by decide
-theorem pcr_meets_spec : ∀ prep commit rb c, specPcr prep commit rb (pcr prep commit rb c) = [] := by decide
+theorem txn_meets_spec : ∀ cond thn rb c sl, specTxn cond thn rb (txn cond thn rb c sl) sl = [] := by decide
+theorem pcr_meets_spec : ∀ prep commit rb c sl, specPcr prep commit rb (pcr prep commit rb c sl) sl = [] := by decide
 
-/-- lifting, for arbitrary step bodies over an arbitrary world and EVERY cancellation point: what `Txn`
+/-- lifting, for arbitrary step bodies over an arbitrary world, EVERY cancellation point and every
+placement of a step that overruns `ttl`: what `Txn`
 returns and which bodies it runs (order, context kind, flag) is the table entry for the outcomes the
 bodies produced — a body may read its context (`view`) and behave accordingly — and the final world
 is the result of running exactly the bodies in that trace, once each, in order. -/
 theorem lifts_to_arbitrary_bodies {σ : Type} (cond : Body σ) (thn : Option (Body σ)) (rb : Option (Bool → Body σ))
-    (c : Cancel) (s : σ) :
-    let t := txn (outcomeOf (cond .txn (view .txn c) s).1) (thenOutcome cond thn rb c s) (rbOutcome rb) c
-    (txnM cond thn rb c s).1 = t.ret ∧ (txnM cond thn rb c s).2.1 = t.calls.map invOf ∧
-    (txnM cond thn rb c s).2.2 = (txnM cond thn rb c s).2.1.foldl (applyInv cond thn rb c) s :=
-  txnM_eq_table cond thn rb c s
+    (c : Cancel) (sl : Slow) (s : σ) :
+    let t := txn (outcomeOf (cond .txn (view .txn .cond c sl) s).1) (thenOutcome cond thn rb c sl s) (rbOutcome rb) c sl
+    (txnM cond thn rb c sl s).1 = t.ret ∧ (txnM cond thn rb c sl s).2.1 = t.calls.map invOf ∧
+    (txnM cond thn rb c sl s).2.2 = (txnM cond thn rb c sl s).2.1.foldl (applyInv cond thn rb c sl) s :=
+  txnM_eq_table cond thn rb c sl s
 
-/-- the table's entry/exit observations are what a body sees through its context (`view`) -/
-theorem bodies_observe_view : ∀ cond thn rb c, ∀ k ∈ (txn cond thn rb c).calls,
-    k.cancelledAtEntry = view k.ctx c (entryRank k.step) ∧ k.cancelledAtExit = view k.ctx c (exitRank k.step) :=
+/-- the table's entry/exit observations are what a body sees through its context (`view`: cancelled by
+the caller, or past the deadline of that context) -/
+theorem bodies_observe_view : ∀ cond thn rb c sl, ∀ k ∈ (txn cond thn rb c sl).calls,
+    k.cancelledAtEntry = view k.ctx k.step c sl (entryRank k.step) ∧
+    k.cancelledAtExit = view k.ctx k.step c sl (exitRank k.step) :=
   observed_view
 
-/-- cancellation never changes which steps run or what is returned (only what the steps observe) -/
-theorem cancellation_does_not_change_control_flow : ∀ cond thn rb c,
-    (txn cond thn rb c).calls.map invOf = (txn cond thn rb .never).calls.map invOf ∧
-    (txn cond thn rb c).ret = (txn cond thn rb .never).ret :=
+/-- neither cancellation nor a step overrunning `ttl` changes which steps run or what is returned
+(only what the steps observe) -/
+theorem cancellation_does_not_change_control_flow : ∀ cond thn rb c sl,
+    (txn cond thn rb c sl).calls.map invOf = (txn cond thn rb .never .none).calls.map invOf ∧
+    (txn cond thn rb c sl).ret = (txn cond thn rb .never .none).ret :=
   trace_independent_of_cancellation
 
 example : (txn .ok (.present .fail) (.present .ok) .duringThen).calls.length = 3 := by decide
